@@ -22,7 +22,7 @@ RULE = (
     "point); it is non-trivial when (a,b) != (0,0) or the shape has several boundary curves or a curved segment."
 )
 MANDATORY = ["kind:simple+", "kind:simple-", "kind:connected+", "kind:connected-", "kind:disjoint+", "kind:disjoint-",
-             "exact-rational", "float-polygon", "curved-exact-rule", "curved-quadrature", "curved-raised-nnodes"]
+             "exact-rational", "float-polygon", "curved-exact-rule", "curved-quadrature", "curved-raised-nnodes", "after-transform"]
 CONSTANTS = {"float_rel": 1e-11, "quadrature_gross_rel": 0.25, "raised_rel": 1e-9}
 
 
@@ -128,6 +128,33 @@ def judge(ctx, case):
                                   "polynomial(%d,%d,nnodes=%d) = %r, reference %r, scale %r" % (a, b, need, float(got), float(ref), scale), kind)
             except BaseException as exc:
                 ctx.violation("integral", "raised", sub, repr(exc), innermost_shapepy_frame(exc))
+    # the same object after an in-place transformation: the integrals must
+    # follow (nothing cached from the evaluations above may survive)
+    tf = case.get("tf")
+    if tf:
+        from .c09 import apply_step, model_step
+
+        try:
+            with call_limit(120):
+                apply_step(shape, tf)
+                moved = model_step([lib.tup(c) for c in curves], tf)
+                for (a, b) in case["exps"]:
+                    if not all(_rule_exact(d, a, b) for d in degs):
+                        continue
+                    got = Sp.IntegrateShape.polynomial(shape, a, b)
+                    ref = sum(rg.curve_moment(c, a, b) for c in moved)
+                    sc = _abs_scale(moved, a, b)
+                    sub = dict(spec=spec, exps=[[a, b]], tf=tf, entry="polynomial-after-" + tf["k"])
+                    ctx.evaluated(sub, True, ["after-transform", "after-" + tf["k"]])
+                    exact_tf = rational and maxdeg == 1 and tf["k"] != "rotate" and all(rg.is_exact(v) for v in tf.get("v", []) + tf.get("s", []))
+                    bad = (got != ref) if exact_tf else abs(float(got) - float(ref)) > 1e-9 * sc
+                    if bad:
+                        ctx.violation("integral", "stale-after-" + tf["k"], sub,
+                                      "polynomial(%d,%d) after %r = %r, reference %r" % (a, b, tf, got, ref), kind)
+                        break
+        except BaseException as exc:
+            ctx.violation("integral", "raised-after-transform", dict(spec=spec, tf=tf), repr(exc), innermost_shapepy_frame(exc))
+        return
     # per-curve integrals
     try:
         with call_limit(120):
@@ -166,7 +193,12 @@ def cases(draw, maxsum):
         exps.append([a, s - a])
     if draw(st.booleans()):
         exps[0] = [0, 0]
-    return {"nk": nk, "deg": list(deg), "spec": spec, "exps": exps}
+    out = {"nk": nk, "deg": list(deg), "spec": spec, "exps": exps}
+    if draw(st.integers(0, 2)) == 0:
+        from .c09 import step
+
+        out["tf"] = draw(step(nk in ("int", "frac")))
+    return out
 
 
 def parts(tier):
